@@ -19,6 +19,8 @@ DE   a member that memoises a function of other members of the same object (assi
      method, or initialised from constructor arguments that are also stored) is re-derived by every writer of those members
 FP   the reoptimisation strides `size - overlap` are non-zero because check() validates overlap < size *per family*: wherever a
      ...ReoptSize meets a ...ReoptOverlap (operands of one operator, arguments of one call) both belong to the same family
+SW   an argument read from a parameter struct (`params.sideMargin`) is not passed in the slot of another parameter of the same type
+     that carries exactly its name while the slot of that parameter receives something else (exchanged arguments)
 DZ   a cell dimension (may be zero) never becomes an integer divisor, locally or through call arguments, without a dominating
      positivity test
 E1   'last element' indices: size()-1 evaluated unsigned without a non-emptiness guard; a function that can
@@ -35,7 +37,7 @@ from ..expr import canon, pretty, children, strip, callee_info, subterms, CALL_K
 from ..cfg import cfg_of
 from ..effects import Effects
 from ..intervals import env_at, eval_int, TOP
-from .common import CQ, short, for_loop_info, var_write_nodes
+from .common import CQ, short, for_loop_info, var_write_nodes, expand_locals
 
 EXPLANATION = (
     "Static checks on the clang-resolved AST of every library unit for the clauses of C07 that are visible in code shape. "
@@ -75,7 +77,10 @@ def run(ctx, rep, tier):
     rep.rule("VB", "no throwing validation of a member after that member was overwritten in the same function (expected count 0)", 0)
     rep.rule("DE", "memoised members (derived from other members) are re-derived by every writer of their inputs (expected count 0)", 0)
     rep.rule("FP", "window size and overlap of the rough-legalization passes are always taken from the same family (line / diag / square)", 6)
+    rep.rule("SW", "no parameter-struct member is passed in the slot of a differently named parameter that has its name (expected count 0)", 0)
     rep.rule("DZ", "no cell dimension (which may be zero) reaches an integer divisor without a positivity test (expected count 0)", 0)
+    rep.rule("MC", "the matrix stamping primitives are called only with cells tested against -1 (the fixed pin of a net)", 3)
+    rep.rule("EV", "no element of a vector is read at a point where nothing can have filled it yet (front / back / at / [] on a container that is still empty)", 12)
     rep.rule("E1", "size()-1 style last-element indices are guarded against the empty container", 1)
     rep.rule("E2", "computed loop steps are provably non-zero or listed", 5)
     rep.rule("CTRL", "positive controls (selftest/c07_controls.cpp)", 4)
@@ -106,7 +111,7 @@ def run(ctx, rep, tier):
     from ..core import SubCtx
     sink = Sink()
     scan(SubCtx(ctl, Effects(ctl)), ctl, sink, {"products_32bit": {}, "narrowing_exceptions": {}, "narrowings_64_to_32": {}, "loop_steps": {}}, control=True)
-    for rid, n in (("M1", 1), ("M2", 1), ("AS", 1), ("VB", 1), ("DE", 1), ("DZ", 2), ("E1", 2), ("E2", 1)):
+    for rid, n in (("M1", 1), ("M2", 1), ("AS", 1), ("VB", 1), ("DE", 1), ("SW", 1), ("DZ", 2), ("E1", 2), ("E2", 1)):
         got = sum(1 for r, _w in sink.v if r == rid)
         if got >= n:
             rep.holds("CTRL", "selftest/c07_controls.cpp", None, "rule %s reports its %d seeded control(s)" % (rid, n), "%d reported" % got)
@@ -253,10 +258,75 @@ def scan(ctx, prog, rep, cfgd, control):
         check_pf(ctx, prog, rep)
         check_di(ctx, prog, rep)
     check_dz(ctx, prog, rep, control)
+    from .common import swapped_arguments
+    sw = swapped_arguments(ctx, list(prog.all_funcs(with_lambdas=True)))
+    for x_, f_, t_ in sw:
+        rep.violation("SW", x_, f_, t_, "two parameters of one type received each other's value: e.g. the side margin (no lower bound in the parameter "
+                      "check) used as bin-size factor gives a bin size of 0 and a division by zero", key="%s|argument in a neighbouring parameter's slot" % f_.short)
+    if not control and not sw:
+        rep.holds("SW", "src/**", None, "every parameter-struct member handed to a library function goes to the parameter it is named after, or to an unrelated one")
     if not control:
         from .common import check_family_pairing
         if check_family_pairing(ctx, rep, "FP", list(prog.all_funcs(with_lambdas=False)), CQ + "RoughLegalizationParameters") == 0:
             rep.unknown("FP", None, None, "size / overlap pairs", "no place where a window size meets an overlap was found (shape changed)")
+    if not control:
+        # MC: the stamping primitives index rhs_, hasNonZero_ and the matrix with their cell arguments; a pin's cell is -1 for the fixed pin
+        # of a net. Only the dispatcher addPin (which tests both cells against -1) may call them, or a caller that has tested the cell.
+        n_mc = 0
+        prim = {CQ + "MatrixCreator::addMovingPin": 2, CQ + "MatrixCreator::addFixedPin": 1}
+        for f_ in prog.all_funcs(with_lambdas=True):
+            if f_.body is None:
+                continue
+            for y_ in walk(f_.body):
+                if y_.get("kind") != "CXXMemberCallExpr" or callee_info(y_)["qname"] not in prim:
+                    continue
+                n_mc += 1
+                nargs = prim[callee_info(y_)["qname"]]
+                cells_ = [canon(a_) for a_ in callee_info(y_)["args"][:nargs]]
+                gs_ = ctx.guards(f_, y_) or []
+                bad_ = []
+                for c_ in cells_:
+                    ok_ = False
+                    for gc, val, _a, _b in gs_:
+                        if gc[0] == "bin" and gc[2] == c_ and ((gc[1] == "==" and val is False and gc[3] in (("lit", "-1"), ("un", "-", ("lit", "1")))) or
+                                                              (gc[1] == ">=" and val is True and gc[3] == ("lit", "0")) or
+                                                              (gc[1] == "<" and val is False and gc[3] == ("lit", "0")) or
+                                                              (gc[1] == "!=" and val is True and gc[3] in (("lit", "-1"), ("un", "-", ("lit", "1"))))):
+                            ok_ = True
+                    # c_ differs from another value that is itself -1: `if (c1 == c2) return; if (c1 == -1) addFixedPin(c2, ...)`
+                    m1 = (("lit", "-1"), ("un", "-", ("lit", "1")))
+                    for gc, val, _a, _b in gs_:
+                        if gc[0] == "bin" and gc[1] == "==" and val is False and c_ in (gc[2], gc[3]):
+                            other = gc[3] if gc[2] == c_ else gc[2]
+                            if any(g2[0] == "bin" and g2[1] == "==" and v2 is True and g2[2] == other and g2[3] in m1 for g2, v2, _x, _y in gs_):
+                                ok_ = True
+                    # a loop counter started at a non-negative literal and only incremented
+                    if c_[0] == "var":
+                        d_ = f_.unit.by_id.get(c_[1])
+                        pd_ = (d_ or {}).get("_p") or {}
+                        if pd_.get("kind") == "DeclStmt" and (pd_.get("_p") or {}).get("kind") == "ForStmt":
+                            li_ = for_loop_info(pd_.get("_p"))
+                            if li_ and li_.get("step") == 1 and li_["lo"][0] == "lit" and not str(li_["lo"][1]).startswith("-"):
+                                ok_ = True
+                    src_ = expand_locals(ctx, f_, c_)
+                    if src_[0] == "call" and str(src_[1]).endswith("::addCell"):
+                        ok_ = True                               # a freshly created star node
+                    if not ok_:
+                        bad_.append(c_)
+                what_ = "%s calls %s(%s)" % (f_.short, callee_info(y_)["name"], ", ".join(pretty(c_)[:20] for c_ in cells_))
+                if bad_:
+                    rep.violation("MC", y_, f_, what_, "cell argument %s is not known to be a real cell (>= 0) there: a pin of a net is on cell -1 when it is the net's fixed "
+                                  "pin, and the primitive indexes rhs_ / hasNonZero_ / the matrix with it (addPin dispatches on -1)" % ", ".join(pretty(c_)[:20] for c_ in bad_),
+                                  key="%s|stamping primitive called with an untested cell" % f_.short)
+                else:
+                    rep.holds("MC", y_, f_, what_, "every cell argument tested against -1 / created by addCell()")
+        if n_mc == 0:
+            rep.unknown("MC", None, None, "MatrixCreator::addMovingPin / addFixedPin", "no call found (shape changed)")
+    if not control:
+        from .common import check_empty_reads
+        nobj, nel = check_empty_reads(ctx, rep, "EV", [f_ for f_ in prog.all_funcs(with_lambdas=False) if f_.body is not None])
+        if nel == 0:
+            rep.unknown("EV", None, None, "vectors that start empty", "none read by element found (shape changed)")
     from .common import check_eager_derived
     n_de = check_eager_derived(ctx, rep, "DE")
     if not control and n_de == 0:
@@ -537,7 +607,8 @@ def check_e1(ctx, prog, rep, control):
                 p = x.get("_p")
                 while p is not None and p.get("kind") in ("ParenExpr",):
                     p = p.get("_p")
-                to_signed = p is not None and p.get("kind") in ("ImplicitCastExpr", "CStyleCastExpr", "CXXStaticCastExpr") and des(p) in ("int", "long", "long long")
+                to_signed = p is not None and p.get("kind") in ("ImplicitCastExpr", "CStyleCastExpr", "CXXStaticCastExpr") and \
+                    des(p).replace("const ", "").strip() in ("int", "long", "long long")
                 if not to_signed and not nonempty_guard(ctx, owner, x, cont, prog):
                     if p is not None and p.get("kind") == "CXXMemberCallExpr" or (p is not None and p.get("kind") == "ImplicitCastExpr" and "float" in des(p)):
                         pass
@@ -799,27 +870,47 @@ def check_di(ctx, prog, rep, rid="DI"):
     ctors = [f for f in prog.funcs.values() if f.cls == gp and f.kind == "CXXConstructorDecl" and not f.decl.get("isImplicit")
              and not (len(f.params) == 1 and "GlobalPlacer" in qt(f.params[0]))]
     n = 0
+    calls = []
+    for x in walk(run.body):
+        if x.get("kind") == "CXXMemberCallExpr":
+            _c, hs = ctx.eff.resolve_callee(x)
+            for h in hs:
+                if h.cls == gp:
+                    calls.append((x, h))
+    by_ctor = {m for m in members if any(def_writes(c, gp + "::" + m) for c in ctors)}
+    all_writers, copies = {}, {}
     for m in members:
         fq = gp + "::" + m
-        if any(def_writes(c, fq) for c in ctors):
+        ws = [g.node_for(x) for x, h in calls if def_writes(h, fq) and not reads_first(h, fq)]
+        # assignments made by run() itself
+        for x in walk(run.body):
+            rhs = None
+            if x.get("kind") == "BinaryOperator" and x.get("opcode") == "=" and canon(children(x)[0]) == ("field", fq, ("this",)):
+                rhs = canon(children(x)[1])
+            elif x.get("kind") == "CXXOperatorCallExpr" and callee_info(x)["name"] == "operator=" and len(children(x)) >= 3 and \
+                    canon(children(x)[1]) == ("field", fq, ("this",)):
+                rhs = canon(children(x)[2])
+            if rhs is not None:
+                wn = g.node_for(x)
+                ws.append(wn)
+                if rhs[0] == "field" and rhs[2] == ("this",) and rhs[1].startswith(gp + "::") and rhs[1].split("::")[-1] in members:
+                    copies.setdefault(m, []).append((wn, rhs[1].split("::")[-1]))
+        all_writers[m] = [w for w in ws if w is not None]
+    # a copy `a_ = b_` made while b_ itself has not been assigned on every path yet gives a_ no content
+    for _round in range(3):
+        for m, lst in copies.items():
+            for wn, src in lst:
+                if src in by_ctor or wn is None or wn not in all_writers[m]:
+                    continue
+                if wn.idx in g.reachable_from([g.entry], avoid=all_writers.get(src, [])):
+                    all_writers[m] = [w for w in all_writers[m] if w is not wn]
+    for m in members:
+        fq = gp + "::" + m
+        if m in by_ctor:
             n += 1
             rep.holds(rid, rec["fields"][m], None, "GlobalPlacer::%s is assigned by the constructor" % m)
             continue
-        calls = []
-        for x in walk(run.body):
-            if x.get("kind") == "CXXMemberCallExpr":
-                _c, hs = ctx.eff.resolve_callee(x)
-                for h in hs:
-                    if h.cls == gp:
-                        calls.append((x, h))
-        writers = [g.node_for(x) for x, h in calls if def_writes(h, fq) and not reads_first(h, fq)]
-        # assignments made by run() itself
-        for x in walk(run.body):
-            if (x.get("kind") == "BinaryOperator" and x.get("opcode") == "=" and canon(children(x)[0]) == ("field", fq, ("this",))) or \
-                    (x.get("kind") == "CXXOperatorCallExpr" and callee_info(x)["name"] == "operator=" and len(children(x)) >= 3 and
-                     canon(children(x)[1]) == ("field", fq, ("this",))):
-                writers.append(g.node_for(x))
-        writers = [w for w in writers if w is not None]
+        writers = all_writers[m]
         readers = [(x, h) for x, h in calls if (fq in trans.get(h.key, {}).get("reads", ()) and not def_writes(h, fq)) or reads_first(h, fq)]
         if not readers:
             continue
@@ -876,9 +967,17 @@ def check_vb(ctx, prog, rep, control, rid="VB"):
                 continue
             n += 1
             done = False
+            fw = trans.get(f.key, {}).get("writes", ())
             for gc, val, _a, asr in (ctx.guards(f, t) or []):
                 for q, nodes in wn.items():
                     if done or not any(u[0] == "field" and u[1] == q for u in subterms(gc)):
+                        continue
+                    # the test reads q only as the object of deeper members (`circuit_.hasNetUpdate_`): it is about those members, and is
+                    # a validation-after-write only if the function (transitively) writes one of them
+                    deeper = [u for u in subterms(gc) if isinstance(u, tuple) and len(u) == 3 and u[0] == "field" and isinstance(u[2], tuple) and u[2][:2] == ("field", q)]
+                    direct = [u for u in subterms(gc) if isinstance(u, tuple) and len(u) == 3 and u[0] == "field" and u[1] == q
+                              and not any(d_[2] is u or d_[2] == u for d_ in deeper)]
+                    if deeper and not direct and not any(d_[1] in fw for d_ in deeper):
                         continue
                     if tn.idx in g.reachable_from(nodes):
                         done = True
@@ -957,6 +1056,13 @@ def check_e2(ctx, prog, rep, cfgd, control):
             if step[0] == "lit":
                 continue
             owner = ctx.eff.func_of_node(x) or f
+            if step[0] == "var":
+                # a step read once into a local that is never written again (`const int side = nbRows / 2;`) is the expression it names
+                d_ = owner.unit.by_id.get(step[1])
+                if d_ is not None and d_.get("kind") == "VarDecl" and children(d_) and not var_write_nodes(ctx, owner, [step[1]]):
+                    e_ = canon(children(d_)[-1])
+                    if not any(isinstance(t, tuple) and t and t[0] == "var" and var_write_nodes(ctx, owner, [t[1]]) for t in subterms(e_)):
+                        step = e_
             env = env_at(ctx, owner, ch[3]) or {}
             env = {v: iv for v, iv in env.items() if not var_write_nodes(ctx, owner, [v])}
             lo, hi = eval_step(step, env)
